@@ -18,15 +18,23 @@ Exact reading (`Ops.rat`, scalars in `ℚ`) of the model `JF.Model.Periodic` of
 * §3 the methods of the cubic class, entry and vector forms;
 * §4 the methods of the cuboid class (per-direction lengths, Python indexing, `IndexError` outcomes);
 * §5 cubic = cuboid when all lengths are equal — for EVERY scalar type and `Ops` record, so also for binary64;
-* §6 binary64 counterexamples (kernel-evaluated on native `Float`): the half-open range and idempotence of
-  `correct_position_entry` are FALSE for the code as it stands (known finding
-  `correct_position:tiny-negative-returns-L`), while the separation bound `|r| ≤ L/2` survives;
+* §6 binary64 (kernel-evaluated on native `Float`): on the witnesses of the former finding the float modulo still rounds
+  to `L`, and the repaired `correct_position_entry` returns `0.0` (inside `[0, L)`) and is idempotent; nan passes through;
+  the separation bound `|r| ≤ L/2` is closed (`+L/2` is reachable);
 * §7 rounding-abstract reading (`RQ R`: `+`/`-` round with an arbitrary monotone idempotent rounding, `fmod` exact):
-  for ALL inputs the closed bounds `0 ≤ y ≤ L`, `|r| ≤ L/2` hold, the position is the exact result rounded once,
-  non-negative inputs are wrapped exactly, `[0, L)` is fixed point-wise; `y = L` needs a negative input and is mapped
-  to `0` by a second application.  A toy rounding shows that `y = L` is indeed reachable under these hypotheses;
-* §8 the proposed repair `r = x % L; return r if r < L else 0.0` (not the code under test): half-open range and
-  idempotence for ALL inputs in the rounding-abstract reading, unchanged exact reading.
+  for ALL inputs the HALF-OPEN range `0 ≤ y < L` and idempotence of the position correction, the position is the exact
+  result rounded once (or `0` when that rounding is `L`), non-negative inputs are wrapped exactly, `[0, L)` is fixed
+  point-wise; `|r| ≤ L/2` for the separation.  A toy rounding shows that the modulo alone does reach `L` under these
+  hypotheses, i.e. that the `!= L` branch is needed.
+
+Historical note.  Up to /repo commit "fix: correct_position_entry returned the system length itself for tiny negative
+entries" the position correction was the bare `x % L` (`JF.pymod`).  This file then proved, kernel-evaluated in binary64,
+that `correct_position_entry(-1e-17) = 1.0 = L` and that a second application gave `0.0` (theorems
+`float_correctPosition_returns_L`, `_not_lt_L`, `_not_idempotent`, cubic/cuboid variants; known finding
+`correct_position:tiny-negative-returns-L`), only the closed bounds `0 ≤ y ≤ L` in the rounding-abstract reading, and the
+half-open range and idempotence for a proposed repair `wrapFix` (`r if r < L else 0.0`).  The code was repaired in the `!=`
+form (`r if r != L else 0.0`); the model `wrap` is now `JF.pywrap`, the former counterexamples are replaced by the positive
+facts of §6 on the same witnesses, and the `wrapFix` results are the main theorems of §7.
 -/
 namespace JF.C15
 open JF JF.Periodic
@@ -53,7 +61,8 @@ theorem window_unique {L c a b : ℚ} (hL : 0 < L) (ha : c ≤ a ∧ a < c + L) 
   have : n = 0 := by omega
   subst this; simp at hn; linarith
 
-theorem wrap_eq {x L : ℚ} (hL : 0 < L) : wrap Ops.rat x L = x - L * ⌊x / L⌋ := pymod_rat hL
+/-- the corrected position in the exact reading: the `!= L` branch of `correct_position_entry` is dead there -/
+theorem wrap_eq {x L : ℚ} (hL : 0 < L) : wrap Ops.rat x L = x - L * ⌊x / L⌋ := pywrap_rat_pos x L hL
 
 /-- the corrected position lies in `[0, L)` -/
 theorem wrap_range {x L : ℚ} (hL : 0 < L) : 0 ≤ wrap Ops.rat x L ∧ wrap Ops.rat x L < L := by
@@ -104,17 +113,15 @@ theorem wrap_congr_eq {x x' L : ℚ} (hL : 0 < L) (h : Congr L x x') : wrap Ops.
   rw [this, wrap_add_int_mul hL]
 
 theorem wrapSep_eq {s L : ℚ} (hL : 0 < L) : wrapSep Ops.rat s L (L / 2) = s - L * ⌊(s + L / 2) / L⌋ := by
-  have := wrap_eq (x := s + L / 2) hL
-  unfold wrap at this
-  unfold wrapSep; rw [this]; ring
+  unfold wrapSep; rw [pymod_rat hL]; ring
 
 /-- the corrected separation lies in `[-L/2, L/2)` -/
 theorem wrapSep_range {s L : ℚ} (hL : 0 < L) :
     -(L / 2) ≤ wrapSep Ops.rat s L (L / 2) ∧ wrapSep Ops.rat s L (L / 2) < L / 2 := by
-  have := wrap_range (x := s + L / 2) hL
-  unfold wrap at this
+  have h0 := pymod_rat_nonneg (s + L / 2) L hL
+  have h1 := pymod_rat_lt (s + L / 2) L hL
   unfold wrapSep
-  constructor <;> linarith [this.1, this.2]
+  constructor <;> linarith [h0, h1]
 
 /-- … so its magnitude is at most half the box length -/
 theorem wrapSep_abs_le {s L : ℚ} (hL : 0 < L) : |wrapSep Ops.rat s L (L / 2)| ≤ L / 2 := by
@@ -585,44 +592,66 @@ example : (match Cubic.init Ops.floatK 3 2.5 with
     | .ok c => c.half == 1.25 && c.dim == 3
     | .error _ => false) = true := by decide +kernel
 
-/-! ## 6. binary64: what survives rounding and what does not
+/-! ## 6. binary64: what survives rounding
 
 `Ops.floatK` is `Ops.float` with a kernel-reducible re-encoding in `fmod` (see `JF/Model/Periodic.lean`; the driver
 evaluates every request of every run with both records and they must agree).  The statements below are evaluated by the
-Lean kernel on native `Float` (`Float.Model`, IEEE-754 binary64). -/
+Lean kernel on native `Float` (`Float.Model`, IEEE-754 binary64).
 
-/-- `-1e-17`, the witness of the known finding -/
+The witnesses are those of the former finding `correct_position:tiny-negative-returns-L`: on them the float modulo still
+rounds to `L` (`float_modulo_rounds_to_L`: the `!= L` branch of the repaired function is live in binary64), and the
+repaired `correct_position_entry` returns `0.0`, inside `[0, L)`, and is idempotent. -/
+
+/-- `-1e-17`, the witness of the former finding -/
 def xTiny : Float := Float.ofBits 13575836048340472983
 
-/-- COUNTEREXAMPLE to the half-open range: `correct_position_entry(-1e-17)` with `L = 1.0` is exactly `1.0 = L` -/
-theorem float_correctPosition_returns_L :
-    (wrap Ops.floatK xTiny 1.0).toBits = (1.0 : Float).toBits := by decide +kernel
+/-- the float modulo itself: `-1e-17 % 1.0` is exactly `1.0 = L` (so the extra branch of the repair is reachable) -/
+theorem float_modulo_rounds_to_L : (pymod Ops.floatK xTiny 1.0).toBits = (1.0 : Float).toBits := by decide +kernel
 
-/-- … so the result is NOT below `L` -/
-theorem float_correctPosition_not_lt_L : ¬ (wrap Ops.floatK xTiny 1.0 < 1.0) := by decide +kernel
+/-- `correct_position_entry(-1e-17)` with `L = 1.0` is `0.0` -/
+theorem float_correctPosition_returns_zero :
+    (wrap Ops.floatK xTiny 1.0).toBits = (0.0 : Float).toBits := by decide +kernel
 
-/-- COUNTEREXAMPLE to idempotence: a second correction maps `L` to `0.0` -/
-theorem float_correctPosition_not_idempotent :
-    (wrap Ops.floatK (wrap Ops.floatK xTiny 1.0) 1.0).toBits ≠ (wrap Ops.floatK xTiny 1.0).toBits ∧
-    (wrap Ops.floatK (wrap Ops.floatK xTiny 1.0) 1.0).toBits = (0.0 : Float).toBits := by decide +kernel
+/-- … so the result lies in the half-open range `0 ≤ y < L` -/
+theorem float_correctPosition_in_range :
+    (0.0 : Float) ≤ wrap Ops.floatK xTiny 1.0 ∧ wrap Ops.floatK xTiny 1.0 < 1.0 := by decide +kernel
+
+/-- … and a second correction returns the same bits -/
+theorem float_correctPosition_idempotent :
+    (wrap Ops.floatK (wrap Ops.floatK xTiny 1.0) 1.0).toBits = (wrap Ops.floatK xTiny 1.0).toBits := by decide +kernel
 
 /-- the same through the class model, cubic and cuboid, after the real set-up -/
-theorem float_cubic_correctPositionEntry_returns_L :
+theorem float_cubic_correctPositionEntry_returns_zero :
     (match Cubic.init Ops.floatK 3 1.0 with
-     | .ok c => (c.correctPositionEntry Ops.floatK xTiny 0).toBits == (1.0 : Float).toBits
+     | .ok c => (c.correctPositionEntry Ops.floatK xTiny 0).toBits == (0.0 : Float).toBits
      | .error _ => false) = true := by decide +kernel
 
-theorem float_cuboid_correctPosition_returns_L :
+theorem float_cuboid_correctPosition_returns_zero :
     (match Cuboid.init Ops.floatK 3 [1.0, 2.0, 3.0] with
      | .ok c => ((c.correctPosition Ops.floatK [xTiny, xTiny, xTiny]).map (·.map Float.toBits))
-                  == some [(1.0 : Float).toBits, (2.0 : Float).toBits, (3.0 : Float).toBits]
+                  == some [(0.0 : Float).toBits, (0.0 : Float).toBits, (0.0 : Float).toBits]
      | .error _ => false) = true := by decide +kernel
 
-/-- the tie: for `L = 1` the inputs that come back as `L` are exactly `-2^-54 ≤ x < 0`
-(`1 - 2^-54` is half-way between `1 - 2^-53` and `1` and rounds to even); one ulp further it is correct again -/
+/-- … and the cuboid vector form is idempotent on that input -/
+theorem float_cuboid_correctPosition_idempotent :
+    (match Cuboid.init Ops.floatK 3 [1.0, 2.0, 3.0] with
+     | .ok c => ((c.correctPosition Ops.floatK [xTiny, xTiny, xTiny]).bind (c.correctPosition Ops.floatK)).map
+                    (·.map Float.toBits)
+                  == (c.correctPosition Ops.floatK [xTiny, xTiny, xTiny]).map (·.map Float.toBits)
+     | .error _ => false) = true := by decide +kernel
+
+/-- the tie: for `L = 1` the inputs whose modulo comes back as `L` are exactly `-2^-54 ≤ x < 0`
+(`1 - 2^-54` is half-way between `1 - 2^-53` and `1` and rounds to even); at the tie the corrected position is `0.0`,
+one ulp further it is the largest double below `1` -/
 theorem float_correctPosition_tie :
-    (wrap Ops.floatK (Float.ofBits 0xBC90000000000000) 1.0).toBits = (1.0 : Float).toBits ∧
+    (wrap Ops.floatK (Float.ofBits 0xBC90000000000000) 1.0).toBits = (0.0 : Float).toBits ∧
     (wrap Ops.floatK (Float.ofBits 0xBC90000000000001) 1.0).toBits = 0x3FEFFFFFFFFFFFFF := by decide +kernel
+
+/-- nan passes through (`!=`), as in the code: the bits of `nan % 1.0` are returned unchanged -/
+theorem float_correctPosition_nan :
+    (wrap Ops.floatK (Float.ofBits 0x7ff8000000000000) 1.0).toBits =
+      (pymod Ops.floatK (Float.ofBits 0x7ff8000000000000) 1.0).toBits ∧
+    (wrap Ops.floatK (Float.ofBits 0x7ff8000000000000) 1.0).isNaN = true := by decide +kernel
 
 /-- the separation bound is closed in binary64: `(s + L/2) % L` may come back as `L`, and then the result is `+L/2`
 (here `L = 3`, `s` one ulp below `-1.5`): magnitude `≤ L/2` holds, the strict `< L/2` of the exact reading does not -/
@@ -638,36 +667,92 @@ theorem float_correctSeparation_half :
 
 `RQ R`: rationals whose `+`/`-` round with an arbitrary monotone idempotent `R.rnd` (`JF/Lemmas/PeriodicRnd.lean`),
 `fmod` exact as in C.  Standing hypotheses: `0`, `L` (and `±L/2`) representable, and the exact `fmod` result
-representable (true for binary floating point: `fmod` never rounds).  The SAME model definitions `wrap` / `wrapSep`. -/
+representable (true for binary floating point: `fmod` never rounds).  The SAME model definitions `wrap` / `wrapSep`.
+
+The modulo `x % L` alone only keeps the CLOSED bounds `0 ≤ m ≤ L` (`rq_pymod_bounds`; `m = L` is reachable, see the toy
+rounding below); the position correction `wrap` (`m if m != L else 0.0`) keeps the HALF-OPEN range and is idempotent for
+ALL inputs (`rq_wrap_range`, `rq_wrap_idem`). -/
 
 section rounding
 variable (R : Rnd)
 
-/-- the corrected position is the exact one, rounded once -/
-theorem rq_wrap_eq (x L : RQ R) (h0 : R.Rep 0) (hm : R.Rep (Ops.rat.fmod x.val L.val)) :
-    (wrap (opsRq R) x L).val = R.rnd (wrap Ops.rat x.val L.val) := rq_pymod R x L h0 hm
+/-- `x % L` keeps the closed bounds under every monotone rounding: `0 ≤ m ≤ L` -/
+theorem rq_pymod_bounds (x L : RQ R) (hL : 0 < L.val) (h0 : R.Rep 0) (hLr : R.Rep L.val)
+    (hm : R.Rep (Ops.rat.fmod x.val L.val)) :
+    0 ≤ (pymod (opsRq R) x L).val ∧ (pymod (opsRq R) x L).val ≤ L.val := by
+  rw [rq_pymod R x L h0 hm]
+  have h1 := pymod_rat_nonneg x.val L.val hL
+  have h2 := pymod_rat_lt x.val L.val hL
+  constructor
+  · have h := R.mono h1; rwa [h0] at h
+  · have h := R.mono h2.le; rwa [hLr] at h
 
-/-- … hence congruent to the input up to ONE rounding -/
+/-- `x % L` is `L` only for a negative `x` (so the extra branch of the correction is taken only for negative inputs) -/
+theorem rq_pymod_eq_L_imp_neg (x L : RQ R) (hL : 0 < L.val) (h0 : R.Rep 0)
+    (hm : R.Rep (Ops.rat.fmod x.val L.val)) (h : (pymod (opsRq R) x L).val = L.val) : x.val < 0 := by
+  by_contra hx
+  have hx0 : 0 ≤ x.val := not_lt.mp hx
+  rw [rq_pymod R x L h0 hm, pymod_rat hL] at h
+  rw [fmod_rat_nonneg (div_nonneg hx0 hL.le)] at hm
+  rw [hm] at h
+  have := pymod_rat_lt x.val L.val hL
+  rw [pymod_rat hL] at this
+  linarith
+
+/-- the two branches of the corrected position -/
+theorem rq_wrap_of_ne (x L : RQ R) (h : (pymod (opsRq R) x L).val ≠ L.val) :
+    wrap (opsRq R) x L = pymod (opsRq R) x L := by
+  unfold wrap
+  exact pywrap_eq_pymod_of_ne _ _ _ (by rw [RQ.bne_iff]; simpa using h)
+
+theorem rq_wrap_of_eq (x L : RQ R) (h : (pymod (opsRq R) x L).val = L.val) : (wrap (opsRq R) x L).val = 0 := by
+  unfold wrap
+  rw [pywrap_eq_zero_of_eq _ _ _ (by rw [RQ.bne_iff]; simpa using h)]
+  simp [opsRq]
+
+/-- the corrected position is the exact one, rounded once — or `0` when that rounding is `L` -/
+theorem rq_wrap_cases (x L : RQ R) (hL : 0 < L.val) (h0 : R.Rep 0) (hm : R.Rep (Ops.rat.fmod x.val L.val)) :
+    (wrap (opsRq R) x L).val = R.rnd (wrap Ops.rat x.val L.val) ∨
+    (R.rnd (wrap Ops.rat x.val L.val) = L.val ∧ (wrap (opsRq R) x L).val = 0) := by
+  have he : wrap Ops.rat x.val L.val = pymod Ops.rat x.val L.val := pywrap_rat_eq_pymod _ _ hL
+  rw [he, ← rq_pymod R x L h0 hm]
+  by_cases h : (pymod (opsRq R) x L).val = L.val
+  · right; exact ⟨h, rq_wrap_of_eq R x L h⟩
+  · left; rw [rq_wrap_of_ne R x L h]
+
+/-- … hence congruent to the input up to ONE rounding (`0 ≡ L`) -/
 theorem rq_wrap_congr_one_rounding (x L : RQ R) (hL : 0 < L.val) (h0 : R.Rep 0)
     (hm : R.Rep (Ops.rat.fmod x.val L.val)) :
-    ∃ k : ℤ, (wrap (opsRq R) x L).val = R.rnd (x.val - k * L.val) :=
-  ⟨⌊x.val / L.val⌋, by rw [rq_wrap_eq R x L h0 hm, wrap_eq hL]; ring_nf⟩
+    ∃ k : ℤ, (wrap (opsRq R) x L).val = R.rnd (x.val - k * L.val) ∨
+      (R.rnd (x.val - k * L.val) = L.val ∧ (wrap (opsRq R) x L).val = 0) := by
+  refine ⟨⌊x.val / L.val⌋, ?_⟩
+  have := rq_wrap_cases R x L hL h0 hm
+  rw [wrap_eq hL] at this
+  rwa [mul_comm]
 
-/-- CLOSED bounds survive every monotone rounding: `0 ≤ y ≤ L` -/
-theorem rq_wrap_bounds (x L : RQ R) (hL : 0 < L.val) (h0 : R.Rep 0) (hLr : R.Rep L.val)
+/-- the HALF-OPEN range survives every monotone rounding, for ALL inputs: `0 ≤ y < L` -/
+theorem rq_wrap_range (x L : RQ R) (hL : 0 < L.val) (h0 : R.Rep 0) (hLr : R.Rep L.val)
     (hm : R.Rep (Ops.rat.fmod x.val L.val)) :
-    0 ≤ (wrap (opsRq R) x L).val ∧ (wrap (opsRq R) x L).val ≤ L.val := by
-  rw [rq_wrap_eq R x L h0 hm]
-  have := wrap_range (x := x.val) hL
-  constructor
-  · have h := R.mono this.1; rwa [h0] at h
-  · have h := R.mono this.2.le; rwa [hLr] at h
+    0 ≤ (wrap (opsRq R) x L).val ∧ (wrap (opsRq R) x L).val < L.val := by
+  have hb := rq_pymod_bounds R x L hL h0 hLr hm
+  by_cases h : (pymod (opsRq R) x L).val = L.val
+  · rw [rq_wrap_of_eq R x L h]; exact ⟨le_rfl, hL⟩
+  · rw [rq_wrap_of_ne R x L h]; exact ⟨hb.1, lt_of_le_of_ne hb.2 h⟩
+
+/-- … the result is representable … -/
+theorem rq_wrap_rep (x L : RQ R) (h0 : R.Rep 0) (hm : R.Rep (Ops.rat.fmod x.val L.val)) :
+    R.Rep (wrap (opsRq R) x L).val := by
+  by_cases h : (pymod (opsRq R) x L).val = L.val
+  · rw [rq_wrap_of_eq R x L h]; exact h0
+  · rw [rq_wrap_of_ne R x L h, rq_pymod R x L h0 hm]; exact R.rep_rnd _
 
 /-- a non-negative input is wrapped without any rounding: exactly congruent and inside `[0, L)` -/
 theorem rq_wrap_exact_of_nonneg (x L : RQ R) (hL : 0 < L.val) (hx : 0 ≤ x.val) (h0 : R.Rep 0)
     (hm : R.Rep (Ops.rat.fmod x.val L.val)) :
     (wrap (opsRq R) x L).val = wrap Ops.rat x.val L.val := by
-  rw [rq_wrap_eq R x L h0 hm, wrap_eq hL]
+  have hne : (pymod (opsRq R) x L).val ≠ L.val := fun h =>
+    absurd (rq_pymod_eq_L_imp_neg R x L hL h0 hm h) (not_lt.mpr hx)
+  rw [rq_wrap_of_ne R x L hne, rq_pymod R x L h0 hm, wrap_eq hL, pymod_rat hL]
   rw [fmod_rat_nonneg (div_nonneg hx hL.le)] at hm
   exact hm
 
@@ -684,31 +769,12 @@ theorem rq_wrap_L (L : RQ R) (hL : 0 < L.val) (h0 : R.Rep 0) : (wrap (opsRq R) L
     rw [fmod_rat_nonneg (by rw [div_self hL.ne']; norm_num), div_self hL.ne']; simp
   rw [rq_wrap_exact_of_nonneg R L L hL hL.le h0 (by rw [hf]; exact h0), wrap_eq hL, div_self hL.ne']; simp
 
-/-- the result is `L` only for a negative input -/
-theorem rq_wrap_eq_L_imp_neg (x L : RQ R) (hL : 0 < L.val) (h0 : R.Rep 0)
-    (hm : R.Rep (Ops.rat.fmod x.val L.val)) (h : (wrap (opsRq R) x L).val = L.val) : x.val < 0 := by
-  by_contra hx
-  rw [rq_wrap_exact_of_nonneg R x L hL (not_lt.mp hx) h0 hm] at h
-  have := (wrap_range (x := x.val) hL).2
-  linarith
-
-/-- idempotence holds whenever the first result is not `L`; if it is `L`, the second application gives `0`
-(so the correction is idempotent from the second application on) -/
-theorem rq_wrap_idem_or_L (x L : RQ R) (hL : 0 < L.val) (h0 : R.Rep 0) (hLr : R.Rep L.val)
+/-- the correction is idempotent, for ALL inputs -/
+theorem rq_wrap_idem (x L : RQ R) (hL : 0 < L.val) (h0 : R.Rep 0) (hLr : R.Rep L.val)
     (hm : R.Rep (Ops.rat.fmod x.val L.val)) :
-    (wrap (opsRq R) (wrap (opsRq R) x L) L).val = (wrap (opsRq R) x L).val ∨
-    ((wrap (opsRq R) x L).val = L.val ∧ x.val < 0 ∧ (wrap (opsRq R) (wrap (opsRq R) x L) L).val = 0) := by
-  have hb := rq_wrap_bounds R x L hL h0 hLr hm
-  rcases lt_or_eq_of_le hb.2 with hlt | heq
-  · left
-    apply rq_wrap_fixed R _ L hb.1 hlt h0
-    rw [rq_wrap_eq R x L h0 hm]; exact R.rep_rnd _
-  · right
-    refine ⟨heq, rq_wrap_eq_L_imp_neg R x L hL h0 hm heq, ?_⟩
-    have : wrap (opsRq R) x L = L := by
-      cases hw : wrap (opsRq R) x L with
-      | mk v => cases L with | mk l => simp [hw] at heq; rw [heq]
-    rw [this]; exact rq_wrap_L R L hL h0
+    (wrap (opsRq R) (wrap (opsRq R) x L) L).val = (wrap (opsRq R) x L).val := by
+  have hr := rq_wrap_range R x L hL h0 hLr hm
+  exact rq_wrap_fixed R (wrap (opsRq R) x L) L hr.1 hr.2 h0 (rq_wrap_rep R x L h0 hm)
 
 /-- the separation bound is closed, so it survives every monotone rounding: `|r| ≤ L/2` -/
 theorem rq_wrapSep_abs_le (s L h : RQ R) (hh : 0 < h.val) (hLh : L.val = 2 * h.val) (h0 : R.Rep 0)
@@ -716,8 +782,7 @@ theorem rq_wrapSep_abs_le (s L h : RQ R) (hh : 0 < h.val) (hLh : L.val = 2 * h.v
     (hm : R.Rep (Ops.rat.fmod (s + h).val L.val)) :
     |(wrapSep (opsRq R) s L h).val| ≤ h.val := by
   have hL : 0 < L.val := by linarith
-  have hb := rq_wrap_bounds R (s + h) L hL h0 hLr hm
-  unfold wrap at hb
+  have hb := rq_pymod_bounds R (s + h) L hL h0 hLr hm
   unfold wrapSep
   rw [RQ.sub_val, _root_.abs_le]
   constructor
@@ -752,22 +817,24 @@ def toyRnd : Rnd where
         exact not_lt.mpr this
       simp [ha, this]
 
-/-- non-vacuity AND sharpness of the closed upper bound: with `toyRnd`, `x = -1/100`, `L = 1` all hypotheses of
-`rq_wrap_bounds` hold and the result is exactly `L` — the abstract counterpart of the binary64 counterexample of §6 -/
+/-- non-vacuity of the position theorems AND liveness of the `!= L` branch: with `toyRnd`, `x = -1/100`, `L = 1` all
+hypotheses of `rq_wrap_range` / `rq_wrap_idem` hold, the modulo `x % L` is exactly `L` (sharpness of the closed bound of
+`rq_pymod_bounds` — the abstract counterpart of `float_modulo_rounds_to_L`), and the corrected position is `0` -/
 example : toyRnd.Rep 0 ∧ toyRnd.Rep 1 ∧ toyRnd.Rep (Ops.rat.fmod (-1 / 100) 1) ∧
-    (wrap (opsRq toyRnd) ⟨-1 / 100⟩ ⟨1⟩).val = 1 := by
+    (pymod (opsRq toyRnd) ⟨-1 / 100⟩ ⟨1⟩).val = 1 ∧ (wrap (opsRq toyRnd) ⟨-1 / 100⟩ ⟨1⟩).val = 0 := by
   have hf : Ops.rat.fmod (-1 / 100) 1 = -1 / 100 := by
     rw [fmod_rat_neg (by norm_num)]
     have : ⌈(-1 / 100 : ℚ) / 1⌉ = 0 := by rw [Int.ceil_eq_iff]; norm_num
     rw [this]; norm_num
   have h0 : toyRnd.Rep 0 := by simp [Rnd.Rep, toyRnd]
   have hm : toyRnd.Rep (Ops.rat.fmod (-1 / 100) 1) := by rw [hf]; norm_num [Rnd.Rep, toyRnd]
-  refine ⟨h0, by norm_num [Rnd.Rep, toyRnd], hm, ?_⟩
-  rw [rq_wrap_eq toyRnd ⟨-1 / 100⟩ ⟨1⟩ h0 hm, wrap_eq (by norm_num)]
-  have : ⌊(-1 / 100 : ℚ) / 1⌋ = -1 := by rw [Int.floor_eq_iff]; norm_num
-  rw [this]
-  have : ⌈(99 / 100 : ℚ)⌉ = 1 := by rw [Int.ceil_eq_iff]; norm_num
-  norm_num [toyRnd, this]
+  have hp : (pymod (opsRq toyRnd) ⟨-1 / 100⟩ ⟨1⟩).val = 1 := by
+    rw [rq_pymod toyRnd ⟨-1 / 100⟩ ⟨1⟩ h0 hm, pymod_rat (by norm_num)]
+    have : ⌊(-1 / 100 : ℚ) / 1⌋ = -1 := by rw [Int.floor_eq_iff]; norm_num
+    rw [this]
+    have : ⌈(99 / 100 : ℚ)⌉ = 1 := by rw [Int.ceil_eq_iff]; norm_num
+    norm_num [toyRnd, this]
+  exact ⟨h0, by norm_num [Rnd.Rep, toyRnd], hm, hp, rq_wrap_of_eq toyRnd ⟨-1 / 100⟩ ⟨1⟩ hp⟩
 
 /-- non-vacuity of `rq_wrapSep_abs_le`: `L = 2`, `h = 1`, `s = -3/2` (all representable for `toyRnd`) -/
 example : toyRnd.Rep 0 ∧ toyRnd.Rep 2 ∧ toyRnd.Rep 1 ∧ toyRnd.Rep (-1) ∧
@@ -781,73 +848,5 @@ example : toyRnd.Rep 0 ∧ toyRnd.Rep 2 ∧ toyRnd.Rep 1 ∧ toyRnd.Rep (-1) ∧
   refine ⟨by simp [Rnd.Rep, toyRnd], by norm_num [Rnd.Rep, toyRnd], by norm_num [Rnd.Rep, toyRnd],
     by norm_num [Rnd.Rep, toyRnd], ?_⟩
   rw [e, hf]; norm_num [Rnd.Rep, toyRnd]
-
-/-! ## 8. the proposed repair (NOT the code under test; backs the fix suggested with the known finding)
-
-`r = x % L; return r if r < L else 0.0` -/
-
-section repair
-variable {α : Type} [Add α] [LT α] [DecidableLT α] [BEq α]
-
-/-- the repaired `correct_position_entry` -/
-def wrapFix (o : Ops α) (x L : α) : α :=
-  let r := wrap o x L
-  if r < L then r else o.ofInt 0
-
-theorem wrapFix_of_lt (o : Ops α) (x L : α) (h : wrap o x L < L) : wrapFix o x L = wrap o x L := by
-  simp [wrapFix, h]
-end repair
-
-/-- in the exact reading the extra branch is dead: nothing changes -/
-theorem wrapFix_rat {x L : ℚ} (hL : 0 < L) : wrapFix Ops.rat x L = wrap Ops.rat x L := by
-  simp [wrapFix, (wrap_range (x := x) hL).2]
-
-/-- in every monotone rounding the repaired function maps into the HALF-OPEN interval `[0, L)` … -/
-theorem rq_wrapFix_range (R : Rnd) (x L : RQ R) (hL : 0 < L.val) (h0 : R.Rep 0) (hLr : R.Rep L.val)
-    (hm : R.Rep (Ops.rat.fmod x.val L.val)) :
-    0 ≤ (wrapFix (opsRq R) x L).val ∧ (wrapFix (opsRq R) x L).val < L.val := by
-  have hb := rq_wrap_bounds R x L hL h0 hLr hm
-  unfold wrapFix
-  by_cases h : wrap (opsRq R) x L < L
-  · simp only [h, if_true]; exact ⟨hb.1, h⟩
-  · simp only [h, if_false]; simpa [opsRq] using hL
-
-/-- … its result is representable … -/
-theorem rq_wrapFix_rep (R : Rnd) (x L : RQ R) (h0 : R.Rep 0) (hm : R.Rep (Ops.rat.fmod x.val L.val)) :
-    R.Rep (wrapFix (opsRq R) x L).val := by
-  unfold wrapFix
-  by_cases h : wrap (opsRq R) x L < L
-  · simp only [h, if_true]; rw [rq_wrap_eq R x L h0 hm]; exact R.rep_rnd _
-  · simp only [h, if_false]; simpa [opsRq] using h0
-
-/-- … and it is idempotent, for ALL inputs -/
-theorem rq_wrapFix_idem (R : Rnd) (x L : RQ R) (hL : 0 < L.val) (h0 : R.Rep 0) (hLr : R.Rep L.val)
-    (hm : R.Rep (Ops.rat.fmod x.val L.val)) :
-    (wrapFix (opsRq R) (wrapFix (opsRq R) x L) L).val = (wrapFix (opsRq R) x L).val := by
-  have hr := rq_wrapFix_range R x L hL h0 hLr hm
-  have hrep := rq_wrapFix_rep R x L h0 hm
-  have hfix := rq_wrap_fixed R (wrapFix (opsRq R) x L) L hr.1 hr.2 h0 hrep
-  have hlt : wrap (opsRq R) (wrapFix (opsRq R) x L) L < L := by
-    rw [RQ.lt_iff, hfix]; exact hr.2
-  rw [wrapFix_of_lt _ _ _ hlt]
-  exact hfix
-
-/-- … and still congruent to the input up to one rounding: it is the rounded exact result, or `0` when that is `L` -/
-theorem rq_wrapFix_cases (R : Rnd) (x L : RQ R) (h0 : R.Rep 0) (hm : R.Rep (Ops.rat.fmod x.val L.val)) :
-    (wrapFix (opsRq R) x L).val = R.rnd (wrap Ops.rat x.val L.val) ∨
-    (R.rnd (wrap Ops.rat x.val L.val) ≥ L.val ∧ (wrapFix (opsRq R) x L).val = 0) := by
-  unfold wrapFix
-  by_cases h : wrap (opsRq R) x L < L
-  · left; simp only [h, if_true]; exact rq_wrap_eq R x L h0 hm
-  · right
-    simp only [h, if_false]
-    rw [RQ.lt_iff, rq_wrap_eq R x L h0 hm] at h
-    exact ⟨not_lt.mp h, by simp [opsRq]⟩
-
-/-- binary64, kernel-evaluated: on the witness of the finding the repaired function returns `0.0` and is idempotent -/
-theorem float_wrapFix_witness :
-    (wrapFix Ops.floatK xTiny 1.0).toBits = (0.0 : Float).toBits ∧
-    (wrapFix Ops.floatK (wrapFix Ops.floatK xTiny 1.0) 1.0).toBits = (wrapFix Ops.floatK xTiny 1.0).toBits := by
-  decide +kernel
 
 end JF.C15
